@@ -10,7 +10,6 @@ impl_from_newtype_to_newtype!(crate::U7, U14);
 
 // From lower primitives to this newtype
 impl_from_primitive_to_newtype!(u8, U14);
-impl_from_primitive_to_newtype!(i8, U14);
 
 // From this newtype to higher primitives
 impl_from_newtype_to_primitive!(U14, u16);
@@ -36,3 +35,16 @@ impl_try_from_primitive_to_newtype!(i64, U14);
 impl_try_from_primitive_to_newtype!(u128, U14);
 impl_try_from_primitive_to_newtype!(i128, U14);
 impl_try_from_primitive_to_newtype!(usize, U14);
+
+// TryFrom signed primitive whose non-negative values all fit (i8 is not convertible from u16,
+// so the macro can't be used).
+impl core::convert::TryFrom<i8> for U14 {
+    type Error = crate::TryFromGreaterError;
+
+    fn try_from(value: i8) -> Result<Self, Self::Error> {
+        if value < 0 {
+            return Err(crate::TryFromGreaterError(()));
+        }
+        Ok(Self(value as _))
+    }
+}
